@@ -115,17 +115,18 @@ class RM:
                 self.by_name.setdefault(r.name, []).append(e)
             if r.is_section():
                 ap = (r.cells.get("appearance") or "").split()
-                if r.kind == "group" and "table-list" in ap:
+                if "table-list" in ap:  # honoured on groups and on repeats
                     if texts(r.cells, "label") or texts(r.cells, "hint"):
                         self.entries.append(Entry(None, f"{path}/generated_table_list_label_{r.rownum}", anc + (r,), repeat, "tl-label", generated=r))
                     first = next((c for c in r.children if base_type(c) in ("select_one", "select_multiple", "rank", "select_one_from_file", "select_multiple_from_file")
                                   and not self.is_disabled(c)), None)
                     if first is not None:
                         # the header is inserted right before the first select (other rows before it keep their place)
+                        inner_rep = r if r.kind == "repeat" else repeat
                         before = [c for c in r.children[: r.children.index(first)]]
-                        self._walk(before, path, anc + (r,), repeat)
-                        self.entries.append(Entry(None, f"{path}/reserved_name_for_field_list_labels_{first.rownum}", anc + (r,), repeat, "tl-header", generated=first))
-                        self._walk(r.children[r.children.index(first):], path, anc + (r,), repeat)
+                        self._walk(before, path, anc + (r,), inner_rep)
+                        self.entries.append(Entry(None, f"{path}/reserved_name_for_field_list_labels_{first.rownum}", anc + (r,), inner_rep, "tl-header", generated=first))
+                        self._walk(r.children[r.children.index(first):], path, anc + (r,), inner_rep)
                         continue
                 self._walk(r.children, path, anc + (r,), r if r.kind == "repeat" else repeat)
             elif r.meta.get("or_other") or (r.type or "").endswith((" or_other", " or other", " or specify other")):
@@ -221,12 +222,18 @@ class RM:
                 if r.cells.get("repeat_count"):
                     rattrs["jr:count"] = ANY
                 ap = r.cells.get("appearance")
+                rkids = None
                 if ap:
-                    rattrs["appearance"] = ap
+                    toks = ap.split()
+                    if "table-list" in toks:
+                        rattrs["appearance"] = " ".join(["field-list"] + [t for t in toks if t != "table-list"])
+                        rkids = self._table_list_body(r, path)
+                    else:
+                        rattrs["appearance"] = ap
                 gattrs = {}
                 has_label = bool(texts(r.cells, "label")) or any(texts(r.cells, m) for m in MEDIA)
                 # RepeatingSection always emits a label element; when the repeat has a label the wrapper carries only ref
-                out.append(("group", path, ANYATTRS, [("repeat", path, rattrs, self._body(r.children, path))]))
+                out.append(("group", path, ANYATTRS, [("repeat", path, rattrs, rkids if rkids is not None else self._body(r.children, path))]))
             else:
                 if not self.has_control(r):
                     continue
